@@ -164,8 +164,10 @@ def run(ctx):
         log(screen_of([rows[i] for i in perm], arity, [plates[i] for i in perm]), "row-permutation")
         traces.append({"g0": 0, "events": events})
         # stacked / averaged helpers
-        hs = ThetaHolder(n_thetas=3)
-        ths = [theta(kind, D, rng) for _ in range(3)]
+        # holders of one, a few, and more than a block's worth of samples (33, 50, 65, 100: production holds hundreds)
+        nth = (3, 1, 33, 7, 50, 65, 2, 100)[len(traces) % 8]
+        hs = ThetaHolder(n_thetas=nth)
+        ths = [theta(kind, D, rng) for _ in range(nth)]
         for t_ in ths:
             hs.add_theta(t_)
         held = []         # results of earlier calls stay what they were, whatever is computed afterwards (no shared buffers)
@@ -182,7 +184,7 @@ def run(ctx):
                 st2, m2 = outcome(helper, scr2, hs)          # same shape, other rows
                 if st2 == "ok":
                     held.append((helper.__name__, m2, np.ascontiguousarray(m2).tobytes()))
-            if st != "ok" or m.shape != (3, scr.size) or any(np.ascontiguousarray(m[i]).tobytes() != np.asarray(getattr(ths[i], single)(scr), dtype=float).tobytes() for i in range(3)):
+            if st != "ok" or m.shape != (nth, scr.size) or any(np.ascontiguousarray(m[i]).tobytes() != np.asarray(getattr(ths[i], single)(scr), dtype=float).tobytes() for i in range(nth)):
                 ctx.violation("%s does not return one row per sample in holder order" % helper.__name__, {"kind": "helper", "helper": helper.__name__, "seed": ctx.seed})
         for helper, single in ((MM.predict_mean_avg, "predict_conditional_mean"), (MM.predict_viability_avg, "predict_viability")):
             st, a = outcome(helper, scr, hs)
@@ -191,7 +193,7 @@ def run(ctx):
                 outcome(helper, scr2, hs)
             want = np.mean([getattr(t_, single)(scr) for t_ in ths], axis=0)
             if st != "ok" or a.shape != (scr.size,) or not np.allclose(a, want, rtol=1e-12, atol=1e-15):
-                ctx.violation("%s is not the mean over the samples" % helper.__name__, {"kind": "helper", "helper": helper.__name__, "seed": ctx.seed})
+                ctx.violation("%s is not the mean over the %d samples of the holder" % (helper.__name__, nth), {"kind": "helper", "helper": helper.__name__, "seed": ctx.seed})
         for name, arr, before in held:
             if np.ascontiguousarray(arr).tobytes() != before:
                 ctx.violation("the array returned by an earlier call of %s changed when a later prediction was computed" % name,
